@@ -83,11 +83,48 @@ class RefMeta:
         return (t.__name__, "id", id(x))
 
 
+class RefMetaExpansion(RefMeta):
+    """grammar-expansion counting (docs/grammars.md: the count grows at every expanded production rule), for hierarchies without
+    lists, tuples and unions: a base value and a field-less production count 1; below a node, every child adds the number of
+    abstract layers between its field's declared type and its own class"""
+
+    def layers(self, declared, n):
+        k = 0
+        cur = n
+        while cur is not None and cur != declared:
+            cur = self.ref.cls[cur]["parent"]
+            k += 1
+        return k if cur == declared else 0
+
+    def meta(self, x):
+        k = id(x)
+        if k in self.memo and self.memo[k][0] is x:
+            return self.memo[k][1]
+        if self.terminal(x):
+            r = (1, 1, 1, Counter([self.key(x)]))
+        else:
+            n = self.ref.cls_of(x)
+            idx = Counter([self.key(x)])
+            nodes, dist, weighted = 1, 1, 0
+            for (fn, ft) in self.ref.cls[n]["fields"]:
+                c = self.ref.field(x, n, fn)
+                cn, cd, cw, ci = self.meta(c)
+                core = ft[1] if ft[0] == "ann" else ft
+                lay = self.layers(core[1], self.ref.cls_of(c)) if core[0] == "cls" and self.ref.cls_of(c) is not None else 0
+                nodes += lay + cn
+                dist = max(dist, cd + lay + 1)
+                weighted += cw
+                idx.update(ci)
+            r = (nodes, dist, weighted + dist, idx)
+        self.memo[k] = (x, r)
+        return r
+
+
 def check_program(ctx, w, p, how):
     if w.ref.conforms(p, w.start_type()) is not None:
         ctx.stat("foreign_failure:ill-typed")
         return
-    rm = RefMeta(w.ref)
+    rm = RefMetaExpansion(w.ref) if w.spec.get("expansion_depthing") else RefMeta(w.ref)
     todo = [p]
     n_nodes = 0
     while todo:
@@ -187,7 +224,17 @@ def directed(tier):
 
 def run(ctx):
     H = ctx.H
-    w = make_world(ctx, FEAT, reps=("tree", "tree", "tree", "ge", "sge", "dsge", "stack"), delta=(1, 2, 2, 3, 4), deciders=("grow", "full", "full", "pigrow", "progressive"))
+    spec_kw = {}
+    if ctx.params.get("corpus") is None and H.draw(6) == 5:
+        # the other depth-counting mode, modelled where the documentation defines it (no lists, tuples, unions)
+        from ..spec import gen_spec
+
+        spec = gen_spec(H, features(**{**FEAT, "list": 0, "annlist": 0, "union": 0, "tuple": 0, "interval": 0, "self_ref": 0, "nested_list": 0,
+                                       "nested_generic": 0, "base_in_list": 0, "nested": 3}))
+        spec["expansion_depthing"] = True
+        spec_kw = {"spec": spec}
+        ctx.stat("expansion_depthing_runs")
+    w = make_world(ctx, FEAT, **spec_kw, reps=("tree", "tree", "tree", "ge", "sge", "dsge", "stack"), delta=(1, 2, 2, 3, 4), deciders=("grow", "full", "full", "pigrow", "progressive"))
     try:
         ctx.sample = w.describe()
         if not w.extract().ok:
